@@ -19,21 +19,26 @@ theorem chainFold_append (pre : List Comp) : ∀ (acc : List Name) (post : List 
       cases acc.reverse with
       | nil => simp
       | cons x rest => simp only; exact ih _ post
-    | normal n => simp only [List.cons_append, chainFold]; exact ih _ post
+    | normal n =>
+      simp only [List.cons_append, chainFold]
+      split
+      · exact ih _ post
+      · simp
 
-theorem chainFold_normal_parent (acc : List Name) (x : Name) :
+theorem chainFold_normal_parent (acc : List Name) (x : Name) (hx : isText x = true) :
     chainFold acc [.normal x, .parent] = some acc := by
-  simp [chainFold]
+  simp [chainFold, hx]
 
-/-- `a/x/../b` addresses the same object as `a/b` -/
-theorem chain_dotdot (pre post : List Comp) (x : Name) (acc : List Name) :
+/-- `a/x/../b` addresses the same object as `a/b` (for a component `x` that is text: a component
+that is not valid UTF-8 makes the whole path `InvalidInput`, resolvable or not) -/
+theorem chain_dotdot (pre post : List Comp) (x : Name) (acc : List Name) (hx : isText x = true) :
     chainFold acc (pre ++ [.normal x, .parent] ++ post) = chainFold acc (pre ++ post) := by
   rw [List.append_assoc, chainFold_append, chainFold_append pre acc post]
   cases chainFold acc pre with
   | none => rfl
   | some acc' =>
     simp only [Option.bind_some]
-    rw [chainFold_append, chainFold_normal_parent]
+    rw [chainFold_append, chainFold_normal_parent _ _ hx]
     rfl
 
 /-- `.` components are ignored -/
@@ -57,11 +62,23 @@ theorem chain_escape (post : List Comp) : chainFold [] (.parent :: post) = none 
   simp [chainFold]
 
 /-- only normal components reach the chain, in order, when nothing climbs -/
-theorem chain_normals (ns : List Name) (acc : List Name) :
+theorem chain_normals (ns : List Name) (acc : List Name) (ht : ∀ n ∈ ns, isText n = true) :
     chainFold acc (ns.map .normal) = some (acc ++ ns) := by
   induction ns generalizing acc with
   | nil => simp [chainFold]
-  | cons n ns ih => simp [chainFold, ih]
+  | cons n ns ih =>
+    have h1 := ht n (by simp)
+    have h2 := ih (acc ++ [n]) (fun m hm => ht m (List.mem_cons_of_mem _ hm))
+    simp [chainFold, h1, h2]
+
+/-- a component that is not text makes the path `InvalidInput` wherever it stands behind a prefix
+that resolves -/
+theorem chain_nontext (pre post : List Comp) (x : Name) (acc : List Name) (hx : isText x = false)
+    (hp : chainFold acc pre ≠ none) : chainFold acc (pre ++ [.normal x] ++ post) = none := by
+  rw [List.append_assoc, chainFold_append]
+  cases hh : chainFold acc pre with
+  | none => exact absurd hh hp
+  | some acc' => simp [chainFold, hx]
 
 /-! ## the string level: slashes -/
 
